@@ -4,4 +4,4 @@ From PahoV Require Import Base.Prelude Codec.Props5 Gen.GenPropTable.
 Definition GT : ptables :=
   {| t_names := gen_prop_names; t_table := gen_prop_table; t_multi := gen_multi_ids;
      t_private := gen_private_vars; t_groups := gen_range_groups;
-     t_npackets := Z.of_nat (length gen_packet_names) |}.
+     t_npackets := Z.of_nat (length gen_packet_names); t_each := gen_range_each |}.
